@@ -105,29 +105,29 @@ const (
 var malNames = []string{"none", "wrong-chain-id", "unprotected", "from!=signer", "tampered-sig", "stale-nonce", "future-nonce", "replay", "contract-sender", "price-below-floor", "cannot-pay-fee"}
 
 type world struct {
-	t       *testing.T
-	c       *Chain
-	ids     map[common.Address]int64
-	addrs   []common.Address
-	wallets []*itutiltypes.TestAccount
+	t                                               *testing.T
+	c                                               *Chain
+	ids                                             map[common.Address]int64
+	addrs                                           []common.Address
+	wallets                                         []*itutiltypes.TestAccount
 	sink, reverter, invalid, logger, store, factory common.Address
-	ks         []common.Address // instances of rtK ever deployed (alive or destroyed)
-	bens       []common.Address // passive beneficiaries
-	core       []common.Address // addresses in every block's universe
-	codeWallet *itutiltypes.TestAccount // a wallet whose address was given code (contract-as-sender)
-	poor       *itutiltypes.TestAccount
-	chainID    *big.Int
-	accepted   []*genTx // previously admitted eth txs (for replays)
-	failedAcc  []*genTx // previously admitted eth txs that failed afterwards (core error, block gas, VM error)
-	cosmosAcc  []*genTx // previously accepted Cosmos txs
-	admitted   map[string]int64 // sha256(raw) of every admitted tx -> height
-	lastSeq    map[common.Address]uint64
-	maxGas     int64
-	eoa        map[common.Address]bool
-	static     map[common.Address]bool // contracts whose nonce never moves
-	kHash      common.Hash
-	kAlive     map[common.Address]bool // instances of rtK alive in the committed state
-	evmModule  common.Address
+	ks                                              []common.Address         // instances of rtK ever deployed (alive or destroyed)
+	bens                                            []common.Address         // passive beneficiaries
+	core                                            []common.Address         // addresses in every block's universe
+	codeWallet                                      *itutiltypes.TestAccount // a wallet whose address was given code (contract-as-sender)
+	poor                                            *itutiltypes.TestAccount
+	chainID                                         *big.Int
+	accepted                                        []*genTx         // previously admitted eth txs (for replays)
+	failedAcc                                       []*genTx         // previously admitted eth txs that failed afterwards (core error, block gas, VM error)
+	cosmosAcc                                       []*genTx         // previously accepted Cosmos txs
+	admitted                                        map[string]int64 // sha256(raw) of every admitted tx -> height
+	lastSeq                                         map[common.Address]uint64
+	maxGas                                          int64
+	eoa                                             map[common.Address]bool
+	static                                          map[common.Address]bool // contracts whose nonce never moves
+	kHash                                           common.Hash
+	kAlive                                          map[common.Address]bool // instances of rtK alive in the committed state
+	evmModule                                       common.Address
 }
 
 func (w *world) id(a common.Address) int64 {
@@ -250,19 +250,20 @@ func newWorld(t *testing.T) *world {
 // ---------------------------------------------------------------- generated transactions
 
 type genTx struct {
-	Kind   string `json:"kind"`
-	Mal    string `json:"malformation"`
-	Sender int64  `json:"sender"`
-	From   string `json:"from"`
-	To     string `json:"to,omitempty"`
-	Dyn    bool   `json:"dynamic_fee"`
-	Price  string `json:"price_or_cap"`
-	Tip    string `json:"tip"`
-	Gas    uint64 `json:"gas"`
-	Nonce  uint64 `json:"nonce"`
-	Value  string `json:"value"`
-	Script string `json:"script,omitempty"`
-	Raw    string `json:"raw_tx,omitempty"`
+	Kind       string `json:"kind"`
+	Mal        string `json:"malformation"`
+	Sender     int64  `json:"sender"`
+	From       string `json:"from"`
+	To         string `json:"to,omitempty"`
+	Dyn        bool   `json:"dynamic_fee"`
+	Price      string `json:"price_or_cap"`
+	Tip        string `json:"tip"`
+	Gas        uint64 `json:"gas"`
+	Nonce      uint64 `json:"nonce"`
+	Value      string `json:"value"`
+	Script     string `json:"script,omitempty"`
+	Raw        string `json:"raw_tx,omitempty"`
+	AccessList int    `json:"access_list_entries,omitempty"`
 
 	raw    []byte
 	coqT   string // Coq term mkTx ...
@@ -433,6 +434,25 @@ func (w *world) genScript(r *Rng, depth int, sender common.Address, unit *big.In
 	}
 	n := 1 + r.Intn(5)
 	for i := 0; i < n && *budget > 0; i++ {
+		if depth < 2 && *budget >= 2 && r.Chance(12) { // a self-destruct inside a frame that reverts: the contract must survive
+			*budget -= 2
+			k := w.pickK(r)
+			b, self := w.pickBenef(r, k, sender)
+			sub := &script{ops: []sop{{kind: sSD, target: k, value: val(), benef: b, benefSelf: self}}, end: endRevert}
+			if r.Chance(30) {
+				sub.ops = append(sub.ops, sop{kind: sFund, target: k, value: val()})
+			}
+			if r.Chance(50) && *budget > 0 { // ... and is also touched outside that frame
+				*budget--
+				s.ops = append(s.ops, sop{kind: sFund, target: k, value: val()})
+			}
+			s.ops = append(s.ops, sop{kind: sSub, value: val(), sub: sub})
+			if r.Chance(25) && *budget > 0 {
+				*budget--
+				s.ops = append(s.ops, sop{kind: sFund, target: k, value: val()})
+			}
+			continue
+		}
 		switch r.Intn(10) {
 		case 0, 1, 2: // repeated self-destruct of one contract, value arriving in between
 			k := w.pickK(r)
@@ -814,7 +834,20 @@ func (w *world) genBlock(r *Rng, n int) []*genTx {
 			gasExec = 150000 + 230000*uint64(g.scr.size())
 			ample = true
 		}
-		intr, err := core.IntrinsicGas(data, nil, to == nil, true, true)
+		// EIP-2930 access list (typed transactions only): changes the intrinsic gas
+		useAL := !dyn && r.Bool()
+		var al ethtypes.AccessList
+		if (dyn || useAL) && mal != mUnprotected && k != kStoreSet && k != kStoreClear && r.Chance(30) {
+			for j := 0; j <= r.Intn(2); j++ {
+				t := ethtypes.AccessTuple{Address: []common.Address{w.sink, w.logger, from, w.pickK(r), w.freshAddr(r)}[r.Intn(5)]}
+				for q := r.Intn(3); q > 0; q-- {
+					t.StorageKeys = append(t.StorageKeys, common.BigToHash(big.NewInt(int64(r.Intn(4)))))
+				}
+				al = append(al, t)
+			}
+			g.AccessList = len(al)
+		}
+		intr, err := core.IntrinsicGas(data, al, to == nil, true, true)
 		require.NoError(w.t, err)
 		var gas uint64
 		if ample {
@@ -861,9 +894,9 @@ func (w *world) genBlock(r *Rng, n int) []*genTx {
 		}
 		var txData ethtypes.TxData
 		if dyn {
-			txData = &ethtypes.DynamicFeeTx{ChainID: chainID, Nonce: nonce, GasTipCap: tip, GasFeeCap: price, Gas: gas, To: to, Value: value, Data: data}
-		} else if r.Bool() {
-			txData = &ethtypes.AccessListTx{ChainID: chainID, Nonce: nonce, GasPrice: price, Gas: gas, To: to, Value: value, Data: data}
+			txData = &ethtypes.DynamicFeeTx{ChainID: chainID, Nonce: nonce, GasTipCap: tip, GasFeeCap: price, Gas: gas, To: to, Value: value, Data: data, AccessList: al}
+		} else if useAL {
+			txData = &ethtypes.AccessListTx{ChainID: chainID, Nonce: nonce, GasPrice: price, Gas: gas, To: to, Value: value, Data: data, AccessList: al}
 		} else {
 			txData = &ethtypes.LegacyTx{Nonce: nonce, GasPrice: price, Gas: gas, To: to, Value: value, Data: data}
 		}
@@ -895,9 +928,9 @@ func (w *world) genBlock(r *Rng, n int) []*genTx {
 			var td ethtypes.TxData
 			switch signed.Type() {
 			case ethtypes.DynamicFeeTxType:
-				td = &ethtypes.DynamicFeeTx{ChainID: chainID, Nonce: nonce, GasTipCap: tip, GasFeeCap: price, Gas: gas, To: to, Value: nv, Data: data, V: v, R: rr, S: ss}
+				td = &ethtypes.DynamicFeeTx{ChainID: chainID, Nonce: nonce, GasTipCap: tip, GasFeeCap: price, Gas: gas, To: to, Value: nv, Data: data, AccessList: al, V: v, R: rr, S: ss}
 			case ethtypes.AccessListTxType:
-				td = &ethtypes.AccessListTx{ChainID: chainID, Nonce: nonce, GasPrice: price, Gas: gas, To: to, Value: nv, Data: data, V: v, R: rr, S: ss}
+				td = &ethtypes.AccessListTx{ChainID: chainID, Nonce: nonce, GasPrice: price, Gas: gas, To: to, Value: nv, Data: data, AccessList: al, V: v, R: rr, S: ss}
 			default:
 				td = &ethtypes.LegacyTx{Nonce: nonce, GasPrice: price, Gas: gas, To: to, Value: nv, Data: data, V: v, R: rr, S: ss}
 			}
@@ -1367,6 +1400,9 @@ func TestDriverBlocks(t *testing.T) {
 			side.Count("class:" + o.Class)
 			side.Count("kind:" + g.Kind)
 			side.Count("mal:" + g.Mal)
+			if g.AccessList > 0 {
+				side.Count("access-list:" + o.Class)
+			}
 			if o.Class == "REJ" {
 				side.Count(fmt.Sprintf("rej:%s/%d", tr.Codespace, tr.Code))
 			}
@@ -1460,6 +1496,32 @@ func TestDriverBlocks(t *testing.T) {
 				mv = append(mv, fmt.Sprintf("(%s, %s)", m[0], m[1]))
 			}
 			eo := fmt.Sprintf("(mkOut %s %s %s %s %s false)", CqZi(used), CqBool(vmerr), CqZi(o.NLogs), CqList(mv), CqZ(burn))
+			// gas consumed before the refund and the refund counter of a call to the store contract, from the SSTORE cost table
+			// (EIP-2929/3529: no-op 2200, 0 -> x 22100, x -> y / x -> 0 5000 with 4800 refunded for a clear; slots are cold)
+			haveRefund, rfLB, rfUB, rfCounter := false, int64(0), int64(0), int64(0)
+			if o.Class == "EXEC_OK" && (g.kind == kStoreSet || g.kind == kStoreClear) && len(g.data) == 2 && g.to != nil && *g.to == w.store {
+				n, v := int(g.data[0]), g.data[1] != 0
+				haveRefund, rfLB = true, int64(g.intr)
+				for k := n; k >= 1 && k <= 6; k-- {
+					switch {
+					case !slots[k] && !v: // 0 -> 0
+						rfLB += 2200
+					case slots[k] && v: // non-zero -> non-zero (the same value is a no-op at 2200, another value costs 5000)
+						rfLB += 2200
+					case !slots[k] && v:
+						rfLB += 22100
+					default: // clear
+						rfLB += 5000
+						rfCounter += 4800
+					}
+					slots[k] = v
+				}
+				rfUB = rfLB + 400 + 150*int64(n) + 2800*int64(n) // loop overhead; x -> y costs 2800 more than the no-op
+			}
+			rfS := "None"
+			if haveRefund {
+				rfS = fmt.Sprintf("(Some (%s, %s, %s))", CqZi(rfLB), CqZi(rfUB), CqZi(rfCounter))
+			}
 			// receipt extension: CREATE address of (sender, nonce), bloom bit positions of each log; observed address and bloom
 			var lb []string
 			for _, l := range o.LogsRlp {
@@ -1473,7 +1535,7 @@ func TestDriverBlocks(t *testing.T) {
 			if o.Status >= 0 {
 				obBloom = cqZs(bloomBits(o.Bloom))
 			}
-			ext := fmt.Sprintf("(mkExt %s %s %s %s)", CqZi(w.id(crypto.CreateAddress(g.from, g.nonce))), CqList(lb), obCA, obBloom)
+			ext := fmt.Sprintf("(mkExt %s %s %s %s %s)", CqZi(w.id(crypto.CreateAddress(g.from, g.nonce))), CqList(lb), rfS, obCA, obBloom)
 			items = append(items, fmt.Sprintf("IEth %s %s %s %s", g.coqT, eo, o.coq(tr.Codespace), ext))
 
 			// ---------------- direct oracle (property texts), independent of the model
@@ -1537,35 +1599,18 @@ func TestDriverBlocks(t *testing.T) {
 					side.Hit("C05/blocks/gas-wanted-not-limit", fmt.Sprintf("gas wanted %d, limit %d", o.GW, g.limit), desc)
 				}
 				// C05: storage refund <= consumed/5 (and the refund counter), on the store contract whose cost is known
-				if !vmerr && (g.kind == kStoreSet || g.kind == kStoreClear) && len(g.data) == 2 && g.to != nil && *g.to == w.store {
-					n, v := int(g.data[0]), g.data[1] != 0
-					lb, counter := int64(g.intr), int64(0)
-					for k := n; k >= 1 && k <= 6; k-- {
-						switch {
-						case slots[k] == v && !v: // 0 -> 0
-							lb += 2200
-						case slots[k] && v: // non-zero -> non-zero (the same value is a no-op at 2200, another value 5000)
-							lb += 2200
-						case !slots[k] && v:
-							lb += 22100
-						default: // clear
-							lb += 5000
-							counter += 4800
-						}
-						slots[k] = v
-					}
-					ub := lb + 400 + 150*int64(n) + 2800*int64(n) // loop overhead; non-zero -> other non-zero costs 2800 more than the no-op
+				if haveRefund {
 					f := func(consumed int64) int64 {
 						rf := consumed / 5
-						if counter < rf {
-							rf = counter
+						if rfCounter < rf {
+							rf = rfCounter
 						}
 						return consumed - rf
 					}
-					if o.RGas < f(lb) || o.RGas > f(ub) {
-						side.Hit("C05/blocks/refund-not-capped-at-one-fifth", fmt.Sprintf("gas used %d; gas consumed within [%d,%d], refund counter %d => gas used within [%d,%d]", o.RGas, lb, ub, counter, f(lb), f(ub)), desc)
+					if o.RGas < f(rfLB) || o.RGas > f(rfUB) {
+						side.Hit("C05/blocks/refund-not-capped-at-one-fifth", fmt.Sprintf("gas used %d; gas consumed within [%d,%d], refund counter %d => gas used within [%d,%d]", o.RGas, rfLB, rfUB, rfCounter, f(rfLB), f(rfUB)), desc)
 					}
-					side.Count(fmt.Sprintf("refund:counter>cap=%v", counter > lb/5))
+					side.Count(fmt.Sprintf("refund:counter>cap=%v", rfCounter > rfLB/5))
 				}
 				// C13 (and the cumulative clause of C05)
 				cumExpected += o.RGas
